@@ -61,6 +61,7 @@ type fStmt struct {
 	cr   *fExpr
 	then []fStmt
 	els  []fStmt
+	inv  [][3]interface{} // while: invariants (lhs expr, cmp, rhs expr)
 }
 
 func renderStmts(sb *strings.Builder, ss []fStmt, indent string) {
@@ -72,6 +73,18 @@ func renderStmts(sb *strings.Builder, ss []fStmt, indent string) {
 			fmt.Fprintf(sb, "%sassert false\n", indent)
 		case "call":
 			fmt.Fprintf(sb, "%s%s\n", indent, s.lhs)
+		case "while":
+			if len(s.inv) == 0 {
+				fmt.Fprintf(sb, "%swhile %s %s %s {\n", indent, s.cl.wuffs(), s.cmp, s.cr.wuffs())
+			} else {
+				fmt.Fprintf(sb, "%swhile %s %s %s,\n", indent, s.cl.wuffs(), s.cmp, s.cr.wuffs())
+				for _, iv := range s.inv {
+					fmt.Fprintf(sb, "%s\t\tinv %s %s %s,\n", indent, iv[0].(*fExpr).wuffs(), iv[1].(string), iv[2].(*fExpr).wuffs())
+				}
+				fmt.Fprintf(sb, "%s{\n", indent)
+			}
+			renderStmts(sb, s.then, indent+"\t")
+			fmt.Fprintf(sb, "%s}\n", indent)
 		case "if":
 			fmt.Fprintf(sb, "%sif %s %s %s {\n", indent, s.cl.wuffs(), s.cmp, s.cr.wuffs())
 			renderStmts(sb, s.then, indent+"\t")
@@ -145,59 +158,92 @@ func cmpSMT(op, l, r string) string {
 	return "(" + op + " " + l + " " + r + ")"
 }
 
-var joinCtr int
+const spUnroll = 7
 
-// spRun executes ss; it returns the state at the probe (nil if the probe is not in ss) and the
-// state after ss.
-func spRun(ss []fStmt, st *spState, decls *[]string) (probe *spState, after *spState) {
+func applySimple(s fStmt, st *spState) {
+	switch s.kind {
+	case "call":
+		// the impure callees of the prologue: clobber sets this.f = 77; bump(d: y) sets this.f = y and returns 5
+		switch s.lhs {
+		case "this.clobber!()":
+			st.vals["this.f"] = "77"
+		case "j = this.bump!(d: args.y)":
+			st.vals["this.f"] = st.vals["args.y"]
+			st.vals["j"] = "5"
+		}
+	case "assign":
+		r := s.rhs.smt(st)
+		switch s.op {
+		case "=":
+			st.vals[s.lhs] = r
+		case "+=":
+			st.vals[s.lhs] = "(+ " + st.vals[s.lhs] + " " + r + ")"
+		case "-=":
+			st.vals[s.lhs] = "(- " + st.vals[s.lhs] + " " + r + ")"
+		}
+	}
+}
+
+// spRun executes ss path by path (if and while fork; loops are unrolled spUnroll times, longer
+// executions are outside the bound). It returns the states in which the probe is reached and,
+// when the probe is not inside ss, the states after ss.
+func spRun(ss []fStmt, states []*spState) (probes, after []*spState) {
 	for _, s := range ss {
 		switch s.kind {
 		case "probe":
-			return st.clone(), st
-		case "call":
-			// the impure callees of the prologue: clobber sets this.f = 77; bump(d: y) sets this.f = y and returns 5
-			switch s.lhs {
-			case "this.clobber!()":
-				st.vals["this.f"] = "77"
-			case "j = this.bump!(d: args.y)":
-				st.vals["this.f"] = st.vals["args.y"]
-				st.vals["j"] = "5"
+			for _, st := range states {
+				probes = append(probes, st.clone())
 			}
-		case "assign":
-			r := s.rhs.smt(st)
-			switch s.op {
-			case "=":
-				st.vals[s.lhs] = r
-			case "+=":
-				st.vals[s.lhs] = "(+ " + st.vals[s.lhs] + " " + r + ")"
-			case "-=":
-				st.vals[s.lhs] = "(- " + st.vals[s.lhs] + " " + r + ")"
+			return probes, nil
+		case "assign", "call":
+			for _, st := range states {
+				applySimple(s, st)
 			}
 		case "if":
-			c := cmpSMT(s.cmp, s.cl.smt(st), s.cr.smt(st))
-			ts := st.clone()
-			ts.pc = append(ts.pc, c)
-			es := st.clone()
-			es.pc = append(es.pc, "(not "+c+")")
-			p1, t1 := spRun(s.then, ts, decls)
-			if p1 != nil {
-				return p1, nil
+			var next []*spState
+			for _, st := range states {
+				c := cmpSMT(s.cmp, s.cl.smt(st), s.cr.smt(st))
+				ts, es := st.clone(), st.clone()
+				ts.pc = append(ts.pc, c)
+				es.pc = append(es.pc, "(not "+c+")")
+				p1, a1 := spRun(s.then, []*spState{ts})
+				p2, a2 := spRun(s.els, []*spState{es})
+				probes = append(probes, p1...)
+				probes = append(probes, p2...)
+				next = append(next, a1...)
+				next = append(next, a2...)
 			}
-			p2, e1 := spRun(s.els, es, decls)
-			if p2 != nil {
-				return p2, nil
+			if len(probes) > 0 {
+				return probes, nil
 			}
-			// join: each variable becomes ite(c, then, else)
-			for k := range st.vals {
-				if t1.vals[k] != e1.vals[k] {
-					st.vals[k] = "(ite " + c + " " + t1.vals[k] + " " + e1.vals[k] + ")"
-				} else {
-					st.vals[k] = t1.vals[k]
+			states = next
+		case "while":
+			var exits []*spState
+			cur := states
+			for k := 0; k <= spUnroll && len(cur) > 0; k++ {
+				var next []*spState
+				for _, st := range cur {
+					c := cmpSMT(s.cmp, s.cl.smt(st), s.cr.smt(st))
+					ex, en := st.clone(), st.clone()
+					ex.pc = append(ex.pc, "(not "+c+")")
+					en.pc = append(en.pc, c)
+					exits = append(exits, ex)
+					if k == spUnroll {
+						continue
+					}
+					p, a := spRun(s.then, []*spState{en})
+					probes = append(probes, p...)
+					next = append(next, a...)
 				}
+				cur = next
 			}
+			if len(probes) > 0 {
+				return probes, nil
+			}
+			states = exits
 		}
 	}
-	return nil, st
+	return nil, states
 }
 
 func factsPool() ([]fStmt, []fStmt) {
@@ -293,6 +339,41 @@ func factsPrograms(depth int, withIf bool) [][]fStmt {
 			}
 		}
 	}
+	// while loops: probe after the loop, at the start of the body, at the end of the body
+	x, y, i, j, f := fv("args.x"), fv("args.y"), fv("i"), fv("j"), fv("this.f")
+	_ = f
+	as := func(l, op string, r *fExpr) fStmt { return fStmt{kind: "assign", lhs: l, op: op, rhs: r} }
+	inv := func(l *fExpr, cmp string, r *fExpr) [3]interface{} { return [3]interface{}{l, cmp, r} }
+	type loopT struct {
+		head fStmt
+		body []fStmt
+	}
+	loops := []loopT{
+		{fStmt{kind: "while", cl: i, cmp: "<", cr: fk(3)}, []fStmt{as("i", "+=", fk(1))}},
+		{fStmt{kind: "while", cl: i, cmp: "<", cr: fk(5), inv: [][3]interface{}{inv(j, "<=", fk(100))}}, []fStmt{as("i", "+=", fk(1)), as("j", "=", x)}},
+		{fStmt{kind: "while", cl: i, cmp: "<", cr: j}, []fStmt{as("i", "+=", fk(1))}},
+		{fStmt{kind: "while", cl: i, cmp: "<", cr: fk(4), inv: [][3]interface{}{inv(j, "==", y)}}, []fStmt{as("i", "+=", fk(2))}},
+		{fStmt{kind: "while", cl: fk(2), cmp: ">", cr: i}, []fStmt{as("i", "+=", fk(1)), {kind: "call", lhs: "this.clobber!()"}}},
+		{fStmt{kind: "while", cl: i, cmp: "<>", cr: fk(6), inv: [][3]interface{}{inv(i, "<=", fk(6))}}, []fStmt{as("i", "+=", fk(1))}},
+		{fStmt{kind: "while", cl: j, cmp: "<", cr: fk(3), inv: [][3]interface{}{inv(i, "==", fb("+", j, j))}}, []fStmt{as("j", "+=", fk(1)), as("i", "+=", fk(2))}},
+	}
+	lpres := [][]fStmt{nil, {as("i", "=", y)}, {as("j", "=", x)}, {as("j", "=", y)}, {as("i", "=", fk(7))}, {as("this.f", "=", x)}}
+	lposts := [][]fStmt{nil, {as("j", "=", i)}, {as("i", "+=", fk(1))}, {as("i", "=", fb("+", i, y))}}
+	for _, pre := range lpres {
+		for _, lp := range loops {
+			for _, post := range lposts {
+				h := lp.head
+				h.then = lp.body
+				out = append(out, append(append(append([]fStmt(nil), pre...), h), append(append([]fStmt(nil), post...), probe)...))
+			}
+			h1 := lp.head
+			h1.then = append([]fStmt{probe}, lp.body...)
+			out = append(out, append(append([]fStmt(nil), pre...), h1))
+			h2 := lp.head
+			h2.then = append(append([]fStmt(nil), lp.body...), probe)
+			out = append(out, append(append([]fStmt(nil), pre...), h2))
+		}
+	}
 	return out
 }
 
@@ -320,7 +401,9 @@ func runFacts(rc *runCtx) {
 	pj := filepath.Join(scratch(), "facts-programs.json")
 	b, _ := json.Marshal(texts)
 	os.WriteFile(pj, b, 0o644)
+	t0 := time.Now()
 	out, err := exec.Command(bin, "facts", pj).Output()
+	fmt.Printf("facts: the tree's checker ran on %d programs in %.1fs\n", len(progs), time.Since(t0).Seconds())
 	if err != nil {
 		rc.broken = append(rc.broken, "wprobe facts: "+err.Error())
 		return
@@ -340,8 +423,9 @@ func runFacts(rc *runCtx) {
 	smtName := map[string]string{"args.x": "cur_x", "args.y": "cur_y", "this.f": "cur_f", "i": "cur_i", "j": "cur_j"}
 	type item struct {
 		idx   int
-		facts []string
-		body  string // (push) ... (pop) fragment producing len(facts)+1 answers
+		facts  []string
+		npaths int
+		body   string // per path a (push) ... (pop) fragment producing len(facts)+1 answers
 	}
 	var items []item
 	for idx := range progs {
@@ -350,20 +434,14 @@ func runFacts(rc *runCtx) {
 		}
 		reached++
 		st := &spState{vals: map[string]string{"args.x": "x0", "args.y": "y0", "this.f": "f0", "i": "0", "j": "0"}}
-		var decls []string
-		ps, _ := spRun(progs[idx], st, &decls)
-		if ps == nil {
+		pss, _ := spRun(progs[idx], []*spState{st})
+		if len(pss) == 0 {
 			continue
 		}
-		var sb strings.Builder
-		sb.WriteString("(push 1)\n")
-		for _, c := range ps.pc {
-			sb.WriteString("(assert " + c + ")\n")
-		}
-		for _, n := range names {
-			fmt.Fprintf(&sb, "(define-fun %s () Int %s)\n", smtName[n], ps.vals[n])
-		}
 		it := item{idx: idx}
+		var sb strings.Builder
+		var qfacts []string
+		var qsmt []string
 		for _, fact := range results[idx].Facts {
 			vars := map[string]bool{}
 			f2 := fact
@@ -377,10 +455,25 @@ func runFacts(rc *runCtx) {
 			}
 			q = replaceIdent(q, "i", "cur_i")
 			q = replaceIdent(q, "j", "cur_j")
-			it.facts = append(it.facts, fact)
-			fmt.Fprintf(&sb, "(push 1)(assert (not %s))(check-sat)(pop 1)\n", q)
+			qfacts = append(qfacts, fact)
+			qsmt = append(qsmt, q)
 		}
-		sb.WriteString("(check-sat)\n(pop 1)\n") // reachability of the probe (vacuity)
+		// one block per path that reaches the probe: every fact must hold on every such path
+		for _, ps := range pss {
+			sb.WriteString("(push 1)\n")
+			for _, c := range ps.pc {
+				sb.WriteString("(assert " + c + ")\n")
+			}
+			for _, n := range names {
+				fmt.Fprintf(&sb, "(define-fun %s () Int %s)\n", smtName[n], ps.vals[n])
+			}
+			for _, q := range qsmt {
+				fmt.Fprintf(&sb, "(push 1)(assert (not %s))(check-sat)(pop 1)\n", q)
+			}
+			sb.WriteString("(check-sat)\n(pop 1)\n") // reachability of the probe on this path (vacuity)
+		}
+		it.facts = qfacts
+		it.npaths = len(pss)
 		it.body = sb.String()
 		items = append(items, it)
 	}
@@ -402,7 +495,7 @@ func runFacts(rc *runCtx) {
 			want := 0
 			for _, it := range chunk {
 				sb.WriteString(it.body)
-				want += len(it.facts) + 1
+				want += it.npaths * (len(it.facts) + 1)
 			}
 			_, zout := sym.RunScript(sym.Primary(), sb.String(), 120*time.Second)
 			var lines []string
@@ -421,14 +514,32 @@ func runFacts(rc *runCtx) {
 			}
 			k := 0
 			for _, it := range chunk {
-				ans := lines[k : k+len(it.facts)+1]
-				k += len(it.facts) + 1
-				if ans[len(it.facts)] != "sat" {
-					continue // the probe is unreachable for every input: facts there are vacuous
+				reachable := false
+				verdict := make([]string, len(it.facts)) // "", "unsat" (holds on every reachable path), "sat", "unknown"
+				for pth := 0; pth < it.npaths; pth++ {
+					ans := lines[k : k+len(it.facts)+1]
+					k += len(it.facts) + 1
+					if ans[len(it.facts)] != "sat" {
+						continue // this path does not reach the probe for any input
+					}
+					reachable = true
+					for f := range it.facts {
+						switch {
+						case ans[f] == "sat":
+							verdict[f] = "sat"
+						case ans[f] == "unsat" && verdict[f] == "":
+							verdict[f] = "unsat"
+						case ans[f] != "unsat" && verdict[f] != "sat":
+							verdict[f] = "unknown"
+						}
+					}
+				}
+				if !reachable {
+					continue
 				}
 				for f, fact := range it.facts {
 					nfacts++
-					switch ans[f] {
+					switch verdict[f] {
 					case "unsat":
 						proved++
 					case "sat":
